@@ -166,7 +166,7 @@ func runSeed(base int64, prop string, worker, run int) int64 {
 	h.Write([]byte(prop))
 	x := splitmix(uint64(base) ^ h.Sum64())
 	x = splitmix(x ^ uint64(worker)<<32 ^ uint64(run))
-	return int64(x >> 1)
+	return int64(x >> 12) // 52 bits: exact in JSON tooling that uses float64
 }
 
 var curRun atomic.Value // string: description of the run in progress
